@@ -26,7 +26,7 @@ theorem bitsOf_drop_word (ws : List (BitVec 64)) (len idx : Nat) (hi : idx < ws.
     have h2 : (idx * 64 + j) / 64 = idx := by omega
     have h3 : (idx * 64 + j) % 64 = j := by omega
     have h4 : j < 64 := by omega
-    simp [h1, h2, h3, hj, h4, wordBits_getElem?, List.getD_eq_getElem?_getD, List.getElem?_eq_getElem hi]
+    simp [h1, h2, h3, hj, h4, wordBits, List.getD_eq_getElem?_getD, List.getElem?_eq_getElem hi]
   · rw [List.getElem?_append_right (by omega), hl, List.getElem?_drop, bitsOf_getElem?]
     by_cases hfull : idx * 64 + 64 ≤ len
     · have hv : vbits len idx = 64 := by unfold vbits; simp [hfull]
@@ -53,7 +53,13 @@ theorem fcWordLoop_out (ws : List (BitVec 64)) (len f idx : Nat) (e : Int) (h : 
   | zero => rfl
   | succ f => unfold fcWordLoop; simp [h]
 
-theorem fcWordLoop_scanClose (ws : List (BitVec 64)) (len : Nat) (hw : ws.length = (len + 63) / 64)
+theorem fcWordLoop_beyond (ws : List (BitVec 64)) (len f idx : Nat) (e : Int) (h : idx * 64 ≥ len) :
+    fcWordLoop ws.toArray len f idx e = none := by
+  cases f with
+  | zero => rfl
+  | succ f => unfold fcWordLoop; simp [h]
+
+theorem fcWordLoop_scanClose (ws : List (BitVec 64)) (len : Nat) (hw : (len + 63) / 64 ≤ ws.length)
     (f idx : Nat) (e : Int) (he : 1 ≤ e) (hf : ws.length + 1 ≤ f + idx) (hb : e + ((len - idx * 64 : Nat) : Int) < 2 ^ 31) :
     fcWordLoop ws.toArray len f idx e =
       scanClose ((bitsOf ws len).drop (idx * 64)) (idx * 64) (e - 1).toNat := by
@@ -67,6 +73,8 @@ theorem fcWordLoop_scanClose (ws : List (BitVec 64)) (len : Nat) (hw : ws.length
     by_cases hi : ws.length ≤ idx
     · rw [fcWordLoop_out ws len _ idx e hi, List.drop_of_length_le (by omega)]; rfl
     have hi' : idx < ws.length := by omega
+    by_cases hbey : idx * 64 ≥ len
+    · rw [fcWordLoop_beyond ws len _ idx e hbey, List.drop_of_length_le (by omega)]; rfl
     have hpos : idx * 64 < len := by omega
     have hvb1 : 1 ≤ vbits len idx := by unfold vbits; split <;> omega
     have hvb2 : vbits len idx ≤ 64 := by unfold vbits; split <;> omega
@@ -74,7 +82,7 @@ theorem fcWordLoop_scanClose (ws : List (BitVec 64)) (len : Nat) (hw : ws.length
     unfold fcWordLoop
     have hsz : ¬ idx ≥ ws.toArray.size := by simp; omega
     have hwd : wordAt ws.toArray idx = ws.getD idx 0 := by simp [wordAt]
-    simp only [hsz, if_false, hwd]
+    simp only [hsz, if_false, hbey, hwd]
     have hvbdef : (if idx * 64 + 64 ≤ len then 64 else len - idx * 64) = vbits len idx := rfl
     rw [hvbdef]
     generalize hA : (wordBits (ws.getD idx 0)).take (vbits len idx) = A
@@ -106,7 +114,7 @@ theorem fcWordLoop_scanClose (ws : List (BitVec 64)) (len : Nat) (hw : ws.length
       have htot := scanClose_none_tot A _ _ hs
       have htb := totExc_bound A
       have hnot : ¬ idx * 64 ≥ len := by omega
-      simp only [hnot, if_false]
+      try simp only [hnot, if_false]
       have hkey : ((len - (idx + 1) * 64 : Nat) : Int) + A.length ≤ ((len - idx * 64 : Nat) : Int) := by
         rw [hAl]; unfold vbits; split <;> omega
       have hwrap : wrapI32 (e + totExc A) = e + totExc A := by
